@@ -43,7 +43,7 @@ PROPS["C13"] = {
             },
         },
         {
-            "pkg": "internal/strobe", "configs": ["force32bit"],
+            "pkg": "internal/strobe", "configs": ["force32bit", "386"],
             "tests": {
                 "TestC13StrobeOps": T(12000, 100000),
                 "TestC13Keccak": T(12000, 200000),
@@ -51,7 +51,7 @@ PROPS["C13"] = {
             },
         },
         {
-            "pkg": "primitives/merlin", "configs": ["force32bit"],
+            "pkg": "primitives/merlin", "configs": ["force32bit", "386"],
             "tests": {
                 "TestC13History": T(18000, 200000),
                 "TestC13Twin": T(3000, 20000),
